@@ -1,12 +1,14 @@
 #!/bin/bash
 # Runs the repository's pinned test suite (guard off) and compares with BASELINE.json stable_pass.
-cd /repo && env -u COBRAPY_VERIF timeout 3400 /venv/bin/python -m pytest -ra -q -p no:cacheprovider --timeout=900 --continue-on-collection-errors -n ${NPROC:-8} --junitxml=/tmp/baseline.junit.xml > /tmp/baseline.log 2>&1
+cd /repo && env -u COBRAPY_VERIF timeout 3400 /venv/bin/python -m pytest -ra -q -p no:cacheprovider --timeout=900 --continue-on-collection-errors -n ${NPROC:-8} --junitxml=/tmp/baseline.junit.xml --ignore=tests/test_io/test_sbml.py > /tmp/baseline.log 2>&1
+# test_sbml.py's module fixture writes to a fixed name in the temp directory: racy under xdist, so that file runs serially
+cd /repo && env -u COBRAPY_VERIF timeout 1200 /venv/bin/python -m pytest -ra -q -p no:cacheprovider --timeout=900 --junitxml=/tmp/baseline2.junit.xml tests/test_io/test_sbml.py >> /tmp/baseline.log 2>&1
 /venv/bin/python - <<'PY'
 import json, xml.etree.ElementTree as ET
 base=set(json.load(open('/root/.vp/BASELINE.json'))['stable_pass'])
-t=ET.parse('/tmp/baseline.junit.xml')
 passed=set()
-for tc in t.iter('testcase'):
+import itertools
+for tc in itertools.chain(ET.parse('/tmp/baseline.junit.xml').iter('testcase'), ET.parse('/tmp/baseline2.junit.xml').iter('testcase')):
     if not any(ch.tag in ('failure','error','skipped') for ch in tc):
         passed.add(f"{tc.get('classname')}::{tc.get('name')}")
 missing=sorted(base-passed)
